@@ -38,6 +38,9 @@ def respell_number(tok, rng):
             sign = '-' if tok.startswith('-') else ''
             if fp and len(ip + fp) <= 12:
                 forms += [sign + (ip + fp).lstrip('0') + '-%d' % len(fp)] if (ip + fp).strip('0') else []
+            if ip == '0' and fp:
+                # no leading zero: -0.5 → -.5, -.5+0, -.5e0
+                forms += [sign + '.' + fp, sign + '.' + fp + '+0', sign + '.' + fp + 'e0', sign + '.' + fp + 'D+00']
             if ip not in ('', '0') and len(ip) <= 3:
                 forms += [sign + '.' + ip + fp + '+%d' % len(ip), sign + '0.' + ip + fp + 'E%d' % len(ip)]
         else:
@@ -173,6 +176,10 @@ def break_lines(card, rng, comments=True):
 
 def restyle(text, rng, features=None):
     feats = features or {k: rng.random() < 0.7 for k in ('case', 'blank', 'break', 'comment', 'message', 'number', 'short')}
+    if features is None:
+        # how the file ends: blank-line terminator + newline (as rendered), a bare newline, nothing at all after the last
+        # character of the last card, or a few blank lines
+        feats['eof'] = rng.choice(['blank', 'blank', 'newline', 'none', 'none', 'many'])
     title, cells, surfs, data = logical_cards(text)
     lines = []
     if feats.get('message'):
@@ -204,6 +211,14 @@ def restyle(text, rng, features=None):
     lines.append('')
     lines += block(surfs, 's')
     lines.append('')
-    lines += block(data, 'd')
+    dlines = block(data, 'd')
+    lines += dlines
     lines.append('')
-    return '\n'.join(lines), feats
+    text = '\n'.join(lines)
+    eof = feats.get('eof', 'blank')
+    if eof != 'blank':
+        body = text.rstrip('\n')
+        if eof == 'none' and feats.get('comment') and body.rsplit('\n', 1)[-1].lstrip().lower().startswith('c '):
+            eof = 'newline'
+        text = body + {'newline': '\n', 'none': '', 'many': '\n\n \n\t\n'}[eof]
+    return text, feats
